@@ -89,8 +89,8 @@ func c11x(e *env) {
 						raw.Close()
 						select {
 						case <-cn.Done:
-						case <-time.After(5 * time.Second):
-							report(fmt.Sprintf("the connection that sent malformed input %x was not ended within 5 s after its client closed", trunc(string(atk), 24)))
+						case <-time.After(15 * time.Second):
+							report(fmt.Sprintf("the connection that sent malformed input %x was not ended within 15 s after its client closed", trunc(string(atk), 24)))
 						}
 						atomic.AddInt64(&nAttack, 1)
 					}
